@@ -42,8 +42,8 @@ T = {
  "C11": ("grammar-based generation + single-point mutation + exhaustive short strings + native fuzz, judged by an independent three-valued reference grammar",
          "MAIL/RCPT lines derived from an RFC grammar (all parameters, edge values), single-octet mutations of them, and all short strings over a syntax-significant alphabet, with extension flags on/off; an independent classifier says valid (exact mailbox and option struct expected), definitely invalid (5xx, no callback; 504 for disabled extensions) or unspecified (only 'unchanged or refused').",
          "Classifier ref/grammar.go is the trusted base; its unspecified share is reported; exploration.", "4/C11, Appendix B"),
- "C12": ("complete enumeration of the 4096 configurations vs a capability table, plus one probe per extension and mixed enabled/disabled parameter lines",
-         "All 4096 configurations (TLS none / available / active / active through a caller-wrapped listener) are enumerated in both tiers; the EHLO/LHLO reply must equal the table-derived capability set exactly, HELO must be single-line, every advertised extension's command/parameter must be accepted (an ordinary DATA transaction included, after refused lines) and every configuration-disabled parameter refused with 504, also on a line that carries parameters of enabled extensions.",
+ "C12": ("complete enumeration of the 7680 configurations vs a capability table, plus one probe per extension and mixed enabled/disabled parameter lines",
+         "All 7680 configurations (size limit none / 1000 / 8 GiB; TLS none / available / active / active through a caller-wrapped listener / available after a failed upgrade) are enumerated in both tiers; the EHLO/LHLO reply must equal the table-derived capability set exactly, HELO must be single-line, every advertised extension's command/parameter must be accepted (an ordinary DATA transaction included, after refused lines) and every configuration-disabled parameter refused with 504, also on a line that carries parameters of enabled extensions.",
          "Finite space enumerated completely (exhaustive: true); the table is written from the RFCs and the property statement.", "4/C12"),
  "C13": ("rapid PBT (quick) / complete enumeration (thorough) of recipient sequences x status scripts vs a pure function of the script",
          "Recipient sequences up to 4 over 2 addresses (with RCPT rejections), every subset/order/timing of SetStatus calls, return value, panic, DATA/BDAT, per-recipient or plain backend (the latter also succeeding without reading), optionally after an abandoned chunked transfer; the i-th final reply must name the i-th accepted recipient and carry the status the script assigns to that occurrence; exactly n replies and the marker command answered next (no deadlock, state-based detection).",
